@@ -25,7 +25,7 @@ func cases(tier string) int {
 	if tier == "thorough" {
 		return 100000
 	}
-	return 2400
+	return 6400
 }
 
 func weightOf(np *v1.NodePool) int32 {
